@@ -261,6 +261,86 @@ def rule_pin_validate(ctx):
 
 
 # ------------------------------------------------------------------------------------------
+def _stalled_item(p, i, e):
+    """does the path take the `Some(Err(..))` arm of the item the iterator call e (at index i) returned?"""
+    res = e.result
+    d = [q for q in p.events[i:] if q.kind == "cond" and q.term == ("disc", res)]
+    if not d or d[0].value == 0 or (isinstance(d[0].value, tuple) and 1 in d[0].value[1]):
+        return False
+    item = ("field", "0", ("variant", "Some", res))
+    dd = [q for q in p.events[i:] if q.kind == "cond" and q.term == ("disc", item)]
+    return bool(dd) and (dd[0].value == 1 or (isinstance(dd[0].value, tuple) and 0 in dd[0].value[1]))
+
+
+def _advance_strict_on_stall(ctx):
+    """try_advance gives up at a stall: after the Stalled arm no further item is taken and the global epoch is not stored"""
+    if hasattr(ctx, "_adv_strict"):
+        return ctx._adv_strict
+    b = ctx.prog.body(TRY_ADVANCE)
+    ok = True
+    for p in Exec(ctx.prog, unroll=2).paths(b):
+        if p.exit[0] == "diverge":
+            continue
+        iters = [(i, e) for i, e in enumerate(p.events) if e.kind == "call" and (e.ntarget or "").endswith("Iterator>::next")]
+        for (i, e) in iters:
+            if not _stalled_item(p, i, e):
+                continue
+            later_next = [1 for (j, _) in iters if j > i]
+            later_store = [o for o in epoch_ops(p) if o[0] > i and o[2] in ("store", "compare_exchange", "swap") and o[3] == "Global.epoch"]
+            if later_next or later_store or p.exit[0] == "retry":
+                ok = False
+    ctx._adv_strict = ok
+    return ok
+
+
+def _only_advance_iterates(ctx):
+    cs = {b.name for (b, _, _, _) in ctx.prog.callers_of("ebr_impl::sync::list::List::<T, C>::iter") if "::test" not in b.name}
+    return bool(cs) and all(TRY_ADVANCE in ctx.prog.path_roots(c) or c == TRY_ADVANCE for c in cs)
+
+
+def _stall_reset_on_path(p):
+    """On a path of the list iterator that yields Stalled: is the position reset to the head (something stored into the iterator
+    IS the head link, something stored is a fresh load OF the head link)?"""
+    stores = [e for e in p.events if e.kind == "store" and "self" in show(e.place)]
+
+    def walk(t):
+        a = b_ = False
+        if not isinstance(t, tuple) or not t:
+            return a, b_
+        if t[0] == "call" and norm(t[1]) == "ebr_impl::pointers::RawAtomic::load":
+            if t[2] and "Iter.head" in show(t[2][0]):
+                b_ = True
+            return a, b_
+        if t[0] in ("field", "deref", "load") and show(t).endswith("Iter.head") or \
+                (t[0] == "field" and t[1] == "Iter.head"):
+            return True, b_
+        for x in (t[1:] if isinstance(t[0], str) else t):
+            if isinstance(x, tuple):
+                a2, b2 = walk(x)
+                a, b_ = a or a2, b_ or b2
+        return a, b_
+    got = [walk(e.value) for e in stores]
+    return any(g[0] for g in got) and any(g[1] for g in got)
+
+
+def _iter_resets_on_stall(ctx):
+    if hasattr(ctx, "_iter_resets"):
+        return ctx._iter_resets
+    nxs = [bb for n_, bb in ctx.prog.bodies.items() if n_.startswith("<ebr_impl::sync::list::Iter<") and n_.endswith("Iterator>::next")]
+    ok = bool(nxs)
+    seen = False
+    for nx in nxs:
+        for p in ctx.ex.paths(nx):
+            ret = p.ret
+            if p.exit[0] == "return" and isinstance(ret, tuple) and ret[0] == "agg" and ret[2] == "Some":
+                inner = ret[3][0]
+                if isinstance(inner, tuple) and inner[0] == "agg" and inner[2] == "Err":
+                    seen = True
+                    ok = ok and _stall_reset_on_path(p)
+    ctx._iter_resets = ok and seen
+    return ctx._iter_resets
+
+
 def rule_advance(ctx):
     r = RuleResult("EBR-ADVANCE", ["C13", "C14", "C18"],
                    "try_advance: stores successor(epoch read at entry) only after a complete traversal in which no "
@@ -342,6 +422,11 @@ def rule_advance(ctx):
                 r.violate(TRY_ADVANCE, "store-value", "the value stored to the global epoch is not successor(<epoch read at "
                           "entry>) (%s)" % show(val)[:80], s[1].loc())
             ok = bad_seen is None
+            if not ok and bad_seen[0] == "stalled" and _iter_resets_on_stall(ctx):
+                # rely/guarantee with EBR-LIST: after a stall the iterator starts over from the head, so a traversal that goes on
+                # and ends normally has visited every participant registered before the restart
+                ok = True
+                r.instance("the traversal goes on after a stall: the iterator restarts from the head (EBR-LIST)", True)
             r.instance("store reached only after a clean traversal", ok)
             if not ok:
                 r.violate(TRY_ADVANCE, "store-after-" + bad_seen[0],
@@ -1864,6 +1949,11 @@ def rule_list(ctx):
                     return a, b_
                 got = [walk(e.value) for e in stores]
                 reset = any(g[0] for g in got) and any(g[1] for g in got)
+                if not reset and _advance_strict_on_stall(ctx) and _only_advance_iterates(ctx):
+                    # rely/guarantee with EBR-ADVANCE: the one consumer of the iterator gives up at a stall (no further item,
+                    # no store of the epoch), so where the iterator stands afterwards does not matter
+                    r.instance("Stalled: the iterator does not restart, and its only consumer (try_advance) gives up at a stall", True)
+                    continue
                 r.instance("Stalled: iterator reset to head", reset)
                 if not reset:
                     r.violate(nx.name, "stalled", "Stalled is yielded without restarting the traversal from the head", nx.loc(0))
